@@ -118,6 +118,12 @@ class Exec:
     # ---------------------------------------------------------------------------------------------
     # assumptions, obligations, branching
 
+    @property
+    def frozen(self):
+        if not hasattr(self, "_frozen"):
+            self._frozen = {}
+        return self._frozen
+
     def assume(self, f):
         if f is True:
             return
@@ -153,6 +159,16 @@ class Exec:
         finally:
             self.solver.pop()
         return r != z3.unsat
+
+    def entails_quick(self, cond):
+        """does the quantifier-free part of the path condition imply cond?  (cheap and sound: fewer hypotheses can only
+        fail to prove; used to prune case distinctions, never to assume anything)"""
+        from .smt import _has_quantifier, _hard_check
+        qf = [h for h in self.pc if not _has_quantifier(h)]
+        try:
+            return _hard_check(qf + [z3.Not(cond)], 400, grace_s=0.4)[0] == "unsat"
+        except Exception:       # noqa
+            return False
 
     def decide(self, nalt=2):
         """nondeterministic choice recorded in the decision trace"""
@@ -212,6 +228,7 @@ class Exec:
         obj.fields[name] = value
 
     def arr_store(self, arr, idx, v):
+        self.check_not_frozen(arr, getattr(self, "_cur_line", None))
         root = arr
         while isinstance(root, SymArr) and root.base is not None:
             root = root.base
@@ -236,6 +253,7 @@ class Exec:
         """pattern: per axis the fixed coordinate of the addressed cells, None for axes addressed by a slice"""
         if arr.base is not None:
             raise Unsupported("bulk assignment through a view")
+        self.check_not_frozen(arr, getattr(self, "_cur_line", None))
         if self.undo is not None:
             self.undo.append(("arr", arr, arr.re, arr.im))
         if self.write_log is not None:
@@ -673,12 +691,14 @@ class Exec:
             raise Unsupported("attribute assignment on %r @%s" % (obj, line))
 
     def py_mutate_list(self, lst):
+        self.check_not_frozen(lst, getattr(self, "_cur_line", None))
         if self.guard is not True:
             raise MergeAbort("list mutation under guard")
         if self.undo is not None:
             self.undo.append(("pylist", lst, list(lst)))
 
     def py_mutate_dict(self, d):
+        self.check_not_frozen(d, getattr(self, "_cur_line", None))
         if self.guard is not True:
             raise MergeAbort("dict mutation under guard")
         if self.undo is not None:
@@ -688,6 +708,7 @@ class Exec:
         if isinstance(base, SymArr):
             return self.registry.models.arr_setitem(self, base, idx, v, line)
         if isinstance(base, SymList):
+            self.check_not_frozen(base, line)
             self.oblige("index-in-bounds", band(compare("<=", 0, idx), compare("<", idx, base.length)),
                         "bounds", line)
             if base.width is not None:
@@ -696,6 +717,7 @@ class Exec:
             self._symlist_store(base, idx, v)
             return
         if isinstance(base, list):
+            self.check_not_frozen(base, line)
             if is_z3(idx):
                 idx = self.concretize_index(idx, len(base), line)
             if isinstance(idx, slice):
@@ -976,6 +998,10 @@ class Exec:
                         return self.call(v.fget, [obj], {}, line)
                     return v
             raise Unsupported("attribute %s of %r @%s" % (name, obj, line))
+        if isinstance(obj, ClassRef) and name == "__name__":
+            return obj.info.name
+        if isinstance(obj, ClassRef) and name == "__module__":
+            return obj.info.module.relpath[:-3].replace("/", ".")
         if isinstance(obj, ClassRef):
             r = obj.info.lookup(name)
             if r is None:
@@ -1305,7 +1331,8 @@ class Exec:
         if c is not None and c.dispatch is not None:
             env0 = self.bind_args(finfo, args, dict(kwargs), bound)
             c = self.registry.contract_for(finfo.qualname + c.dispatch(env0)) or c
-        if c is not None and not c.inline and finfo.qualname != self.registry.under_proof:
+        inl = c.inline(self.registry.under_proof) if (c is not None and callable(c.inline)) else (c.inline if c is not None else False)
+        if c is not None and not inl and finfo.qualname != self.registry.under_proof:
             from . import spec
             return spec.apply_contract(self, c, finfo, args, kwargs, bound, line)
         hook = self.registry.models.call_hook(self, finfo, args, kwargs, bound, line)
@@ -1313,6 +1340,7 @@ class Exec:
             return hook[0]
         if _is_generator(finfo.node):
             raise Unsupported("generator function %s @%s" % (finfo.qualname, line))
+        cached = False
         for d in finfo.node.decorator_list:
             dn = d.id if isinstance(d, ast.Name) else d.attr if isinstance(d, ast.Attribute) else \
                 (d.func.id if isinstance(d, ast.Call) and isinstance(d.func, ast.Name) else
@@ -1331,13 +1359,40 @@ class Exec:
                 return self.call(wrapped, full, dict(kwargs), line)
             if dn in getattr(self.registry.models, "executable_decorators", ()) and raw:
                 continue
+            if dn in ("lru_cache", "cache"):
+                # memoised function: the body is executed (one call = the first call with these arguments) and the
+                # returned object is the cached one, shared by every later caller: it must never be mutated
+                cached = True
+                continue
             if dn not in ("staticmethod", "classmethod", "property", "deprecated"):
                 # a decorator may replace the body (runtime dispatch, caching, ...): never inline such a function
                 raise Unsupported("call of decorated function %s (@%s) without a contract @%s"
                                   % (finfo.qualname, dn, line))
         env = self.bind_args(finfo, args, dict(kwargs), bound)
         self.used_contracts.add("inlined:" + finfo.qualname)
-        return self.run_function(finfo, env)
+        res = self.run_function(finfo, env)
+        if cached:
+            self.freeze(res)
+        return res
+
+    def freeze(self, v, depth=0):
+        """values handed out by a memoised function"""
+        if isinstance(v, (list, dict, SymArr, SymList, Obj)) and depth < 6:
+            self.frozen[id(v)] = v
+            items = v if isinstance(v, list) else v.values() if isinstance(v, dict) else \
+                v.fields.values() if isinstance(v, Obj) else ()
+            for x in items:
+                self.freeze(x, depth + 1)
+        elif isinstance(v, tuple):
+            for x in v:
+                self.freeze(x, depth + 1)
+
+    def check_not_frozen(self, obj, line=None):
+        root = obj
+        while isinstance(root, SymArr) and root.base is not None:
+            root = root.base
+        if id(root) in self.frozen:
+            self.oblige("cached-value-not-mutated", False, "aliasing", line)
 
     def instantiate(self, cinfo, args, kwargs, line=None):
         hook = self.registry.models.instantiate_hook(self, cinfo, args, kwargs, line)
